@@ -724,9 +724,9 @@ CHECKS["C04"]["bounds"]["thorough"] += "; allow-list reuse with second target <=
 # ---- round-3 extensions
 # C01: one Packer, two destinations
 CHECKS["C01"]["groups"][0]["quick"] = list(CHECKS["C01"]["groups"][0]["quick"]) + [
-    {"id": "unpackreuse-K2", "entry": "HarnessC01Reuse", "params": {"K": 2, "sName": 2, "sLink": 1}, "shards": 12, "_w": 50, "shard_depth": 14}]
+    {"id": "unpackreuse-K1", "entry": "HarnessC01Reuse", "params": {"K": 1, "sName": 2, "sLink": 2}, "shards": 6, "_w": 30}]
 CHECKS["C01"]["groups"][0]["reach"] = CHECKS["C01"]["groups"][0]["reach"] + ["second-unpack"]
-CHECKS["C01"]["bounds"]["quick"] += "; one Packer unpacking K=2 symbolic entries (names <=2 segments) into /w/d, possibly failing part-way, and then a fixed archive into /w/q/r: the second call touches nothing outside /w/q/r; raw entries also of type 'g' (PAX global header record)"
+CHECKS["C01"]["bounds"]["quick"] += "; one Packer unpacking a directory entry and one symbolic entry (name / target <=2 segments) into /w/d, possibly failing part-way, and then a fixed archive into /w/q/r: the second call touches nothing outside /w/q/r; raw entries also of type 'g' (PAX global header record)"
 # C02 / C05: the slug fed back into Unpack under 5 spellings of the destination; C02: write faults
 for _pid in ("C02", "C05"):
     CHECKS[_pid]["groups"][0]["quick"] = list(CHECKS[_pid]["groups"][0]["quick"]) + [
@@ -803,3 +803,11 @@ CHECKS["C19"]["groups"].append(
                quick=[{"id": "bad-rules", "entry": "HarnessC19BadRules", "no_panic": True, "no_hang": True}],
                thorough=[], reach=["bad-rules-packed"], sample_every=1, isolated=True))
 CHECKS["C19"]["bounds"]["quick"] += "; Pack with ignore processing over a 4-entry tree with 14 rule files containing lines that are not valid patterns (unclosed classes, stray escapes)"
+# overlays the round-3 groups need
+for _g in CHECKS["C19"]["groups"]:
+    if _g["name"] == "manifests":
+        _g["native_overlays"] = _g["native_overlays"] + ["native/bundle_native.go"]
+    if _g["name"] == "rules":
+        for _k in ("sym_overlays", "native_overlays"):
+            if "harness/slug/pack.go" not in _g[_k]:
+                _g[_k] = _g[_k] + ["harness/slug/pack.go"]
